@@ -359,10 +359,17 @@ func c17Check(tier string) int {
 		pool.ChownNobody(sbroot)
 		defer os.RemoveAll(sbroot)
 		out := pool.RunWorker([]string{"c17", tier, strconv.Itoa(k), strconv.Itoa(k + 1)}, nil, budget(tier), true, "VERIF_SANDBOX="+sbroot)
+		if out.TimedOut && out.ExitCode != 3 {
+			// the wall-clock budget ran out (a loaded machine, a slower tree): not a verdict about the property
+			run.Add("workers_out_of_budget", 1)
+			run.Set("exhaustive", false)
+			run.Set("cap", "a worker exceeded the wall-clock budget of this tier; its share of the space was not completed")
+			return
+		}
 		if out.Crashed() {
 			cls := "process-crash"
-			if out.ExitCode == 3 || out.TimedOut {
-				cls = "does-not-terminate"
+			if out.ExitCode == 3 {
+				cls = "does-not-terminate" // the worker's own watchdog: 60 s inside one search
 			}
 			run.Report(ev.Violation{Key: fmt.Sprintf("worker level0=%d level1=%d", out.Progress[0], out.Progress[1]), Class: cls,
 				What: fmt.Sprintf("worker died or hung (exit=%d signal=%s timeout=%v) in chains starting %s/%s: %s", out.ExitCode, out.Signal, out.TimedOut,
@@ -393,9 +400,10 @@ func c17Check(tier string) int {
 	run.Set("binary_invocations", binCalls)
 	if f := os.Getenv("VERIF_C17_SCHED"); f != "" {
 		var sp struct {
-			Calls int64          `json:"calls"`
-			Execs int64          `json:"execs"`
-			Viol  []ev.Violation `json:"viol"`
+			Calls  int64          `json:"calls"`
+			Execs  int64          `json:"execs"`
+			Budget int64          `json:"workers_out_of_budget"`
+			Viol   []ev.Violation `json:"viol"`
 		}
 		data, err := os.ReadFile(f)
 		if err != nil || json.Unmarshal(data, &sp) != nil {
@@ -403,6 +411,10 @@ func c17Check(tier string) int {
 		}
 		for _, v := range sp.Viol {
 			run.Report(v)
+		}
+		if sp.Budget > 0 {
+			run.Set("exhaustive", false)
+			run.Set("cap", "a worker of the schedule part exceeded the wall-clock budget")
 		}
 		run.Set("schedule_part", map[string]any{"find_calls": sp.Calls, "schedules_explored": sp.Execs,
 			"what": "file.Find (mechanically rewritten: go statements, channels, sync and sync/atomic operations are scheduling points) for every chain of depth 3 x start x stop at or above start, under EVERY interleaving: same, correct answer on all of them, no deadlock / leak / panic. Find is sequential today, so this is one schedule per call"})
